@@ -14,6 +14,11 @@ func main() { hc.Main("C07", run) }
 func run(c *hc.Ctx) {
 	c07(c)
 	c07laws(c)
+	c07funcs(c)
+	c07preds(c)
+	c07arcs(c)
+	c07paths(c)
+	c07describe(c)
 }
 
 func GenMatrix(c *hc.Ctx) canvas.Matrix {
@@ -43,7 +48,7 @@ func GenMatrix(c *hc.Ctx) canvas.Matrix {
 func c07(c *hc.Ctx) {
 	// 1. L1 correspondence: generated Point/Matrix/Rect/Bézier definitions vs the real functions
 	names := hc.L1Names([]string{"Core", "Bezier"}, func(file, recv, name string) bool {
-		return recv == "Point" || recv == "Matrix" || recv == "Rect" || strings.Contains(name, "BezierPos")
+		return recv == "Point" || recv == "Matrix" || recv == "Rect" || name == "snap" || strings.Contains(name, "BezierPos")
 	})
 	c.L1Corr(names, c.N)
 
